@@ -153,6 +153,14 @@ def run_case(case, acc):
     for pid in sorted(procs):
         pp, st = procs[pid]
         t.spawn(pid, st, ppid=pp, comm=nasty_comm(pid))
+    if case.get("zombies") and not case.get("reparent"):
+        # exited but not reaped yet (or a thread-group leader that exited while its threads run on): still listed, still
+        # somebody's child, still somebody's parent
+        for pid in case["zombies"]:
+            if pid in t.procs and pid != caller:
+                t.procs[pid].zombie = True
+                t.procs[pid].state = "Z"
+        acc.count("tables_with_zombie_members")
     vk = vkernel.VK()
     vk.table = t
     vk.mount("/vproc", t)
@@ -296,6 +304,7 @@ def run_case(case, acc):
                     cur = before[cur][0]
                 if name == "parents" and cyclic:
                     continue        # a cyclic chain upwards (self-parented root, ...): only children() is promised to terminate on those
+                ps.pids()       # fresh lowest-pid knowledge: a self-parented lowest pid ends the chain through that rule
                 base = len(vk.log)
                 def act_up(vk_, kind, path, victim=victim):
                     if victim in t.procs:
@@ -404,6 +413,8 @@ def gen_random(rng):
             # an older incarnation of that pid (it died and the pid was re-used by the process in `procs`)
             before[k] = [rng.choice([before[k][0], 0, int(rng.choice(sorted(before)))]), max(1, before[k][1] - rng.choice([1, 40, 90]))]
         case["before"] = before
+    if rng.random() < 0.25:
+        case["zombies"] = rng.sample(pids, rng.randrange(1, max(2, n // 2)))
     r = rng.random()
     if r < 0.2:
         case["vanish"] = [rng.choice(pids), rng.randrange(0, 3 * n + 2)]
